@@ -349,3 +349,87 @@ theorem checkRow_spec2 (fks : List FkDecl) (hco : CascadeOnly fks) :
         exact ⟨h1, h2.1⟩) (Sub.refl _) hr
 
 end VibeProof.Dml
+
+namespace VibeProof.Dml
+open VibeProof
+
+/-! ### TRUNCATE … CASCADE -/
+
+theorem mem_fkChildren (fks : List FkDecl) (tables : List Nat) (p c : Nat) :
+    c ∈ fkChildren fks tables p ↔ c ∈ tables ∧ c ≠ p ∧ ∃ d ∈ fks, d.child = c ∧ d.parent = p := by
+  simp [fkChildren]
+
+theorem fkChildren_perm {fks fks' : List FkDecl} (h : fks.Perm fks') (tables : List Nat) (p : Nat) :
+    fkChildren fks' tables p = fkChildren fks tables p := by
+  unfold fkChildren
+  apply List.filter_congr
+  intro c _
+  congr 1
+  rw [Bool.eq_iff_iff]
+  simp only [List.any_eq_true]
+  constructor
+  · rintro ⟨d, hd, h2⟩; exact ⟨d, h.mem_iff.mpr hd, h2⟩
+  · rintro ⟨d, hd, h2⟩; exact ⟨d, h.mem_iff.mp hd, h2⟩
+
+/-- every visited table that is not on the recursion stack has all its children visited -/
+def ClosedExcept (fks : List FkDecl) (tables vis stack : List Nat) : Prop :=
+  ∀ x ∈ vis, x ∉ stack → ∀ c ∈ fkChildren fks tables x, c ∈ vis
+
+def VisitSpec (fks : List FkDecl) (tables : List Nat) (stack : List Nat)
+    (rec : List Nat → Nat → Except TErr (List Nat)) : Prop :=
+  ∀ vis c vis', ClosedExcept fks tables vis stack → rec vis c = .ok vis' →
+    (∀ x ∈ vis, x ∈ vis') ∧ c ∈ vis' ∧ ClosedExcept fks tables vis' stack
+
+theorem visitAll_spec (fks : List FkDecl) (tables stack : List Nat) (rec : List Nat → Nat → Except TErr (List Nat))
+    (hrec : VisitSpec fks tables stack rec) : ∀ (cs vis vis' : List Nat), ClosedExcept fks tables vis stack →
+      visitAll rec vis cs = .ok vis' →
+      (∀ x ∈ vis, x ∈ vis') ∧ (∀ c ∈ cs, c ∈ vis') ∧ ClosedExcept fks tables vis' stack := by
+  intro cs
+  induction cs with
+  | nil =>
+    intro vis vis' h hr
+    simp only [visitAll, Except.ok.injEq] at hr; subst hr
+    exact ⟨fun _ h => h, by simp, h⟩
+  | cons c cs ih =>
+    intro vis vis' h hr
+    unfold visitAll at hr
+    split at hr
+    · simp at hr
+    · rename_i vis1 h1
+      obtain ⟨a1, a2, a3⟩ := hrec vis c vis1 h h1
+      obtain ⟨b1, b2, b3⟩ := ih vis1 vis' a3 hr
+      refine ⟨fun x hx => b1 x (a1 x hx), ?_, b3⟩
+      intro x hx
+      rcases List.mem_cons.mp hx with rfl | hx
+      · exact b1 _ a2
+      · exact b2 x hx
+
+theorem visit_spec (fks : List FkDecl) (tables : List Nat) :
+    ∀ (fuel : Nat) (stack : List Nat), VisitSpec fks tables stack (fun vis c => visit fks tables fuel vis stack c) := by
+  intro fuel
+  induction fuel with
+  | zero => intro stack vis c vis' _ hr; simp [visit] at hr
+  | succ f ih =>
+    intro stack vis t vis' hcl hr
+    simp only [visit] at hr
+    split at hr
+    · simp at hr
+    · rename_i hns
+      split at hr
+      · rename_i hv
+        simp only [Except.ok.injEq] at hr; subst hr
+        exact ⟨fun _ h => h, hv, hcl⟩
+      · rename_i hnv
+        have hcl1 : ClosedExcept fks tables (t :: vis) (t :: stack) := by
+          intro x hx hxs c hc
+          rcases List.mem_cons.mp hx with rfl | hx
+          · exact absurd List.mem_cons_self hxs
+          · exact List.mem_cons_of_mem _ (hcl x hx (fun h => hxs (List.mem_cons_of_mem _ h)) c hc)
+        obtain ⟨a1, a2, a3⟩ := visitAll_spec fks tables (t :: stack) _ (ih (t :: stack)) _ (t :: vis) vis' hcl1 hr
+        refine ⟨fun x hx => a1 x (List.mem_cons_of_mem _ hx), a1 t List.mem_cons_self, ?_⟩
+        intro x hx hxs c hc
+        by_cases hxt : x = t
+        · subst hxt; exact a2 c hc
+        · exact a3 x hx (by simp [hxt, hxs]) c hc
+
+end VibeProof.Dml
